@@ -30,7 +30,8 @@ RULE = ("cases = model documents: 6 filter-key shapes x every pool value (incl. 
         "distinct = distinct (document label, mode, format, leaf multiset).")
 ASSUMPTIONS = [
     "the JSON/YAML view cannot distinguish a block from an inline map; comments, block targets and section annotations are not leaves",
-    "Markdown formats values lossily by design (lists joined with ', '): Markdown is compared on leaf PATHS only",
+    "Markdown formats values lossily by design (lists joined with ', '): Markdown is compared on leaf PATHS, plus: a value printed as a NUMBER must be a number the source has",
+    "a STRING value that begins with three backticks cannot be told from a literal zone in the Markdown rendering: the Markdown leaf scan is undefined for such documents (skipped)",
 ]
 
 S, A, B, Lst, I, Bo, Doc, Sec, Z = dm.S, dm.A, dm.B, dm.Lst, dm.I, dm.Bo, dm.Doc, dm.Sec, dm.Z
